@@ -146,6 +146,11 @@ func (cs *concurrentStrategy) Dec(APIStream public_types.APIStreamI) error {
 	cs.mutex.Unlock()
 
 	if !found {
+		// This quota no longer knows the request (e.g. its own GC already reclaimed
+		// the expired slot), but an ancestor may still hold one for it.
+		if cs.parent != nil {
+			return cs.parent.GetQuota().Dec(APIStream)
+		}
 		return nil
 	}
 
